@@ -103,6 +103,12 @@ def check_circuit(recipe, env, maxph, acc, late=False):
                     w = [ref_amp(uf, hin, hout, n_loss, i, o) for o in rep]
                     if rr.array.shape != (1, 4) or np.abs(rr.array[0] - w).max() > TOL:
                         acc.violation("explicit_output_order", {**base, "input": i, "outputs": rep, "repeated": True}, None)
+                # an explicit request for no output at all (a filtered candidate list that came out empty) is not "all"
+                rr = sim.simulate(si, [])
+                acc.tick("executions"); acc.tick("transitions")
+                if list(rr.outputs) != [] or rr.array.shape != (1, 0):
+                    acc.violation("explicit_output_order", {**base, "input": i, "outputs": []},
+                                  {"returned_outputs": len(rr.outputs)})
                 sel = outs[::-1][:3]
                 rr = sim.simulate(si, [lw.State(list(o)) for o in sel])
                 acc.tick("executions"); acc.tick("transitions")
